@@ -248,4 +248,52 @@ PROPS = {
         cross_lane=True,
         assumptions=COMMON_ASSUME + ["NEON and LSX scanners cannot be executed on x86_64 and are not covered", "`--cfg miri` selects the portable scanner and has no other effect on hashbrown"],
     ),
+    "C05": dict(
+        level="exploration",
+        rule=("the HashMap and HashTable drivers (all public operations incl. reserve/shrink/rehash, entries, raw entries with lying hashers, retain/extract_if/drain, "
+              "clone, get_many_mut) run with the Chaos plan: every hash is a fresh pseudo-random draw from a palette of 2..64 values (collisions and moves both happen) "
+              "and Eq lies with probability 0/2/20/50 %; no result is compared with a model. Judged: sanitizer of the lane, allocator ledger, element registry "
+              "(exactly-once drop at scenario end), I1-I4/I6 after every call, len()==iter().count()==number drained, no aliasing from get_many_mut, equality calls "
+              "per lookup <= 2*(buckets+16), hashbrown's probe-length debug assertion. evaluations = API calls; distinct = table-state x operation signatures and "
+              "(lie probability, palette) cells"),
+        lanes=dict(
+            quick=lanes(("dbg", 6, 12000), ("generic", 4, 12000), ("asan", 4, 12000), ("miri", 2, 12000)),
+            thorough=lanes(("dbg", 16, 120000), ("generic", 16, 120000), ("asan", 16, 120000), ("miri", 16, 240000)),
+        ),
+        require=["rehash_in_place", "resize_grow", "steps_with_tombstones"],
+        assumptions=COMMON_ASSUME + ["termination is restated as a bound on equality callbacks per lookup; a watchdog firing is inconclusive"],
+    ),
+    "C19": dict(
+        level="exploration",
+        rule=("real rayon thread pools (1,2,3,4,8,16,32,64 threads) drive par_iter, par_keys, par_values, par_iter_mut, par_values_mut, into_par_iter, par_drain of maps "
+              "(recipe states and tables up to 20000 elements with holes), sets and tables into an instrumented UnindexedConsumer whose folders log what they receive, "
+              "leaf by leaf, with injected yields and sleeps; the log is checked offline: every stored element delivered exactly once. Consumers that turn full() after k "
+              "items (every k for small tables) on into_par_iter/par_drain: delivered set is duplicate-free, the rest is dropped exactly once (element registry), par_drain "
+              "leaves an empty usable collection. The real RawIterRange::split is driven along explicit decision trees (every bit-string tree for tables of <= 6 groups, "
+              "random above) and the leaves must partition the FULL buckets. par_extend/from_par_iter/par_eq/parallel set operations are compared with the sequential "
+              "results. TSan (lane tsan) and Miri's race detector (thorough) watch the same workloads. evaluations = parallel drives + split trees + equivalence cases; "
+              "distinct = distinct observed partitions (multiset of leaf sizes) x iterator kind x pool size, distinct split-tree shapes"),
+        lanes=dict(
+            quick=lanes(("dbg", 6, 12000), ("generic", 4, 12000), ("tsan", 6, 12000)),
+            thorough=lanes(("dbg", 16, 120000), ("generic", 16, 120000), ("tsan", 16, 120000), ("miri", 8, 240000)),
+        ),
+        require=["runs_with_real_splits", "runs_stopped_early", "tables_with_all_split_trees"],
+        assumptions=COMMON_ASSUME + ["real schedules are sampled, not enumerated; the split-tree enumeration is exhaustive only for tables of <= 6 scan groups"],
+    ),
+    "C20": dict(
+        level="exploration",
+        rule=("a minimal in-harness serde Serializer (token list) and Deserializer (MapAccess/SeqAccess with programmable size_hint and failure position) drive "
+              "hashbrown's Serialize/Deserialize impls for HashMap (3 element pairs + zero-sized) and HashSet (3 element types; deserialize and deserialize_in_place) "
+              "built from 13 state recipes: deserialize(serialize(x))==x both ways and by contents for 12 claimed size hints (None, 0..usize::MAX); inputs with "
+              "repeated keys keep the last value; a failure injected at every element position is returned as that error with no element or block leaked or dropped "
+              "twice (registry, ledger); the bytes held and the largest request seen by the allocator when the first element is requested are bounded by a fresh "
+              "with_capacity(65536) for every claimed hint (an oversize request would be refused by the allocator and surface as an abort of the shard). "
+              "evaluations = (de)serialisations checked; distinct = (case, hint, emptiness, element) cells"),
+        lanes=dict(
+            quick=lanes(("dbg", 10, 10000), ("asan", 4, 10000)),
+            thorough=lanes(("dbg", 16, 120000), ("asan", 16, 120000), ("miri", 8, 180000)),
+        ),
+        require=["injected_errors_returned", "inputs_with_repeated_keys"],
+        assumptions=COMMON_ASSUME,
+    ),
 }
